@@ -24,17 +24,17 @@ CHECKS = {
             "Byte equality of QUERY with the source text for hostile document texts, operation provenance vectors, derive / CLI selection matrix incl. no-fallback.",
             "Document text generator (whitespace, comments, escapes, CRLF, non-ASCII); explicit non-matching name in CLI/library form is not constrained by the statement.", "5/C05", "A+B"),
     "C06": ("exploration", "runtime monitor: generator result on model-validated invalidating edits at every position",
-            "Every single invalidating edit (10 rules) of sampled clean pairs must not yield Ok.",
+            "Every single invalidating edit (11 rules) of sampled clean pairs must not yield Ok; a query file given in one process to its own schema and to one that cannot answer it is accepted / refused accordingly.",
             "Edit validity decided by the model (possible-type intersection).", "5/C06", "A"),
     "C07": ("exploration", "differential monitor: token streams for 7 renderings of one schema model",
             "Same (document, options) against SDL / JSON renderings: exact token equality when order is preserved, canonical item multiset otherwise.",
             "Renderers share one schema model.", "5/C07", "A"),
-    "C08": ("exploration", "history monitor vs fresh-process reference + cache event log checker + Miri",
-            "Sequential histories, 2..16-thread stampedes and Miri-scheduled runs: each call equals the same call alone in a fresh process; cache log shows exactly-once fill, no hit after failed fill; no UB/data race reported; no driver process ends with every thread parked in an endless futex wait (deadlock monitor).",
+    "C08": ("exploration", "history monitor vs fresh-process reference (calls, threads, processes, CLI invocations sharing a directory) + Miri + ThreadSanitizer; cache event log recorded as observation",
+            "Sequential histories, 2..16-thread stampedes (lockstep on deeply nested documents), Miri-scheduled runs, stampedes in a ThreadSanitizer build (std instrumented) and a history of CLI invocations into one output directory: each call equals the same call alone in a fresh process / directory; no UB or data race reported; no driver process ends with every thread parked in an endless wait (deadlock monitor). Cache fills / hits / lock orders are reported, not judged.",
             "OS / Miri schedules observed are recorded, not enumerated.", "5/C08", "A"),
     "C09": ("exploration", "metamorphic monitor: same vectors under several wire-neutral option sets",
             "Observations (accept/reject, re-serialised payloads, serialised variables) must be identical under every sampled combination of wire-neutral options.",
-            "Extern enums supplied with the reference wire behaviour.", "5/C09", "B"),
+            "Extern enums supplied with the reference wire behaviour, or strict in groups where every member declares them external.", "5/C09", "B"),
     "C10": ("exploration", "runtime monitor: enum trace (string -> enum -> Debug + string)",
             "Schema value names map to distinct non-Other variants and back; any other string maps to Other(s) and back; non-strings rejected.",
             "Debug output used only to tell variants apart.", "5/C10", "B"),
@@ -51,14 +51,14 @@ CHECKS = {
             "Per-field expectation from schema + strategy for allow/warn/deny/unset; deny cases compiled and fed payloads with the deprecated keys.",
             "Response key -> schema field is a function in the generated schemas.", "5/C14", "A+B"),
     "C15": ("exploration", "runtime monitor: runtime-crate driver trace vs grammar acceptance, round trip, reference Display",
-            "Grammar-generated bodies accepted, re-serialised without loss, deserialize(serialize(r)) = r, Display equals the reference; subset under Miri.",
+            "Grammar-generated bodies accepted, re-serialised without loss, deserialize(serialize(r)) = r, Display equals the reference (also under callers' format specs and after writes into failing sinks); subset under Miri.",
             "Response grammar of the GraphQL spec (June 2018, section 7).", "5/C15", "D"),
     "C16": ("exploration", "runtime monitor: ID helper calls along several serde routes + compiled ID positions",
             "Reference coercion table on boundary values through from_str / from_value / flatten / tagged; compiled ID positions incl. negative controls.",
             "List-of-ID positions belong to the clean corpus since the K3 repair.", "5/C16", "D+B"),
     "C17": ("exploration", "process monitor: exit status / signal / CPU time of an isolated worker per adversarial input",
             "Worker must end by return or panic-with-message; never by signal, never > 20 s CPU, never deadlocked (all threads in a futex wait without timeout, none scheduled again) - also when a failing input is followed by further inputs in the same worker, as between the derives of one crate.",
-            "8 MB main-thread stack; CPU time from wait4.", "5/C17", "A"),
+            "8 MB main-thread stack; CPU time from wait4; CPU time is not judged for the long-chain class (quadratic walks); open finding K10 (60,000-type input chain).", "5/C17", "A"),
     "C18": ("exploration", "differential monitor: attribute extraction vs reference parser; derive event log vs library route",
             "Attribute texts over key subsets / orders / literal styles; real derives compared with the library called with the written options.",
             "Reference attribute parser of vlib/gen_attr.py.", "5/C18", "attrdrv+B"),
